@@ -246,8 +246,13 @@ async def episode(loop, frames_and_gaps, reads_per_step, rnd) -> dict:
     errors: list = []
     bystander_at = rnd.randrange(len(frames_and_gaps)) if rnd.random() < 0.35 else -1
     bystanders = []
+    burst_k = 0
     for i_step, (gap, fr) in enumerate(frames_and_gaps):
-        await asyncio.sleep(gap)
+        in_burst = gap is None           # read from the port in the same pass of the loop as the frame before (one read, two lines)
+        more = i_step + 1 < len(frames_and_gaps) and frames_and_gaps[i_step + 1][0] is None
+        if not in_burst:
+            await asyncio.sleep(gap)
+            burst_k = 0
         if i_step == bystander_at:
             # a second gateway is created in this process (a log being replayed next to the live one): its clock is the time of
             # its log, years away from ours - whose messages age by *our* clock
@@ -259,9 +264,19 @@ async def episode(loop, frames_and_gaps, reads_per_step, rnd) -> dict:
             when = rnd.choice((dt(2001, 1, 1), dt(2037, 1, 1)))
             other._transport = SimpleNamespace(_dt_now=lambda when=when: when)
             bystanders.append(other)
-        seen.clear()
-        if fr is not None:
+        if not in_burst:
+            seen.clear()
+        if fr is not None and (in_burst or more):
+            burst_k += 1
+            rig.transport.inject_at(gwrig.vnow(loop) + td(microseconds=700 * burst_k), fr)
+        elif fr is not None:
             await rig.feed(fr)
+        if more:
+            continue
+        if in_burst:
+            for _ in range(3):
+                await asyncio.sleep(0)
+        if fr is not None or in_burst:
             for msg in seen:
                 seq += 1
                 code = str(msg.code)
@@ -372,6 +387,15 @@ def part_b(chk: Check, rnd: random.Random, thorough: bool) -> None:
             elif r >= 0.4:
                 sent.append(fr)
             fg.append((gap, fr))
+            # ... and now and then the very next frame arrives in the same serial read: the same zone and code again, as the
+            # other of announcement / reply, with another value
+            if fr is not None and r >= 0.4 and rnd.random() < 0.12 and fr[17:26] == "--:------" and len(fr) < 64 and fr[37:41] in ("30C9", "2309", "2349", "12B0", "000A"):
+                z, code = fr[46:48], fr[37:41]
+                for _try in range(20):
+                    fr2 = gen_ctl_frame(rnd, CTL)
+                    if fr2[:2] == "RP" and fr2[37:41] == code and fr2[46:48] == z and fr2[46:] != fr[46:]:
+                        fg.append((None, fr2))
+                        break
 
         async def body(loop, fg=fg):
             return await episode(loop, fg, rnd.randint(1, 3), rnd)
